@@ -17,6 +17,7 @@ use std::str::FromStr;
 
 type LRelation = debian_control::lossless::relations::Relation;
 type LEntry = debian_control::lossless::relations::Entry;
+type LRelations = debian_control::lossless::relations::Relations;
 
 // ---------------------------------------------------------------- dumps
 fn op_s(c: &VersionConstraint) -> &'static str {
@@ -249,10 +250,13 @@ pub fn rel_lossy_text(fs: &[&str]) -> String {
 /// lt   = hex of lossless::Relation::from(r).to_string()
 /// back = lossy::Relation::from(lossless::Relation::from(r))
 /// ll   = lossy::Relation::from(lossless::Relation::from_str(r.to_string()))   (ERR when the lossless reader refuses)
-/// and for every entry e: et = hex of lossless::Entry::from(e).to_string(), eb = Vec<lossy::Relation>::from(that)
+/// and for every entry e: et = hex of lossless::Entry::from(e).to_string(), eb = Vec<lossy::Relation>::from(that),
+/// el = Vec<lossy::Relation>::from(lossless::Entry::from_str(text of e));
+/// for the whole value: ft = hex of lossless::Relations::from(Vec<Entry>) of the converted entries,
+/// fb = its entries converted back, fl = the entries of lossless::Relations::from_str(text) converted
 pub fn rel_lossy_conv(fs: &[&str]) -> String {
     let orig = rels_of(fs[0]);
-    let (mut lt, mut back, mut ll, mut et, mut eb) = (vec![], vec![], vec![], vec![], vec![]);
+    let (mut lt, mut back, mut ll, mut et, mut eb, mut el) = (vec![], vec![], vec![], vec![], vec![], vec![]);
     let mut lossy = vec![];
     for e in &orig.0 {
         for r in e {
@@ -272,15 +276,42 @@ pub fn rel_lossy_conv(fs: &[&str]) -> String {
         et.push(guard(move || hex(&LEntry::from(e1).to_string())));
         let e2 = e.clone();
         eb.push(guard(move || entry_s(&Vec::<Relation>::from(LEntry::from(e2)))));
+        let e3 = e.clone();
+        el.push(guard(move || {
+            let text = e3.iter().map(|r| r.to_string()).collect::<Vec<_>>().join(" | ");
+            match LEntry::from_str(&text) {
+                Ok(x) => entry_s(&Vec::<Relation>::from(x)),
+                Err(_) => "ERR".to_string(),
+            }
+        }));
     }
+    let field = |o: &Relations| -> LRelations {
+        LRelations::from(o.0.iter().map(|e| LEntry::from(e.clone())).collect::<Vec<LEntry>>())
+    };
+    let back_field = |l: &LRelations| -> String {
+        rels_s(&Relations(l.entries().map(Vec::<Relation>::from).collect()))
+    };
+    let o1 = rels_of(fs[0]);
+    let ft = guard(move || hex(&field(&o1).to_string()));
+    let o2 = rels_of(fs[0]);
+    let fb = guard(move || back_field(&field(&o2)));
+    let o3 = rels_of(fs[0]);
+    let fl = guard(move || match LRelations::from_str(&o3.to_string()) {
+        Ok(x) => back_field(&x),
+        Err(_) => "ERR".to_string(),
+    });
     format!(
-        "lossy={}|lt={}|back={}|ll={}|et={}|eb={}",
+        "lossy={}|lt={}|back={}|ll={}|et={}|eb={}|el={}|ft={}|fb={}|fl={}",
         lossy.join(","),
         lt.join(","),
         back.join("&"),
         ll.join("&"),
         et.join(","),
-        eb.join("&")
+        eb.join("&"),
+        el.join("&"),
+        ft,
+        fb,
+        fl
     )
 }
 
